@@ -299,6 +299,24 @@ def _fontinfo_dslib(ctx):
     return True
 
 
+def _second_axis_partial(ctx):
+    # a second axis on which every source sits at the (non-zero) default without saying so: partial
+    # source locations are valid, the missing coordinate is the axis default
+    if ctx["fn"] not in DSFUNCS:
+        return False
+    ctx["axis2"] = True
+    return True
+
+
+def _vf_fontinfo(ctx):
+    # format 5: an explicit <variable-font> with its own public.fontInfo overrides
+    if ctx["fn"] not in VAR_FUNCS:
+        return False
+    ctx["vf_lib"] = {"public.fontInfo": {"familyName": "VF Override", "styleName": "Roman",
+                                         "openTypeOS2VendorID": "VRIF", "versionMajor": 3}}
+    return True
+
+
 def _feawriters_lib(ctx):
     for sp in ctx["specs"]:
         sp["lib"][F + "featureWriters"] = [
@@ -354,6 +372,8 @@ INGREDIENTS = {
     "vertical": _vertical,
     "dslib-fontinfo": _fontinfo_dslib,
     "lib-featureWriters": _feawriters_lib,
+    "second-axis-partial-locations": _second_axis_partial,
+    "vf-fontinfo": _vf_fontinfo,
     "layerName": _layer_name,
     "cff2": _opt("cffVersion", 2, only={"compileOTF"}),
     "no-subr": _opt("optimizeCFF", 0, only={"compileOTF", "compileInterpolatableOTFsFromDS",
@@ -453,8 +473,14 @@ def build_sources(ctx, module):
             "c": copy.deepcopy({k: v for k, v in sp0["glyphs"]["c"].items() if k != "unicodes"})}}
         sources.insert(1, {"spec": sp0, "share": "m0", "layerName": "mid",
                            "location": {"Weight": 550}, "name": "mid"})
-    ds = B.build_designspace([{"name": "Weight", "tag": "wght", "min": 400, "default": 400, "max": 700}],
-                             sources, rules=ctx["rules"], lib=ctx["dslib"], module=module)
+    axes = [{"name": "Weight", "tag": "wght", "min": 400, "default": 400, "max": 700}]
+    if ctx.get("axis2"):
+        axes.append({"name": "Width", "tag": "wdth", "min": 75, "default": 100, "max": 100})
+    vfs = None
+    if ctx.get("vf_lib"):
+        vfs = [{"name": "VerifVF", "axes": [a["name"] for a in axes], "lib": ctx["vf_lib"]}]
+    ds = B.build_designspace(axes, sources, rules=ctx["rules"], lib=ctx["dslib"], module=module,
+                             variable_fonts=vfs, format_version="5.0" if vfs else None)
     if ctx.get("unnamed"):
         for s_ in ds.sources:
             s_.name = None  # valid for a designspace built in memory
